@@ -112,7 +112,10 @@ func firstValue(obj slip.Object) slip.Object {
 	return obj
 }
 
-func processBinding(s, ns *slip.Scope, arg slip.Object, depth int) {
+// processBinding makes the bindings of let, prog and prog*. If an init form
+// returns a return-from or go marker no further bindings are made and the
+// marker is returned so that the caller can pass it up.
+func processBinding(s, ns *slip.Scope, arg slip.Object, depth int) (exit slip.Object) {
 	var bindings slip.List
 	switch ta := arg.(type) {
 	case nil:
@@ -136,7 +139,12 @@ func processBinding(s, ns *slip.Scope, arg slip.Object, depth int) {
 			if 1 < len(tb) {
 				// Use the original scope to avoid using the new bindings since
 				// they are evaluated in apparent parallel.
-				ns.Let(sym, slip.EvalArg(s, tb, 1, depth))
+				value := slip.EvalArg(s, tb, 1, depth)
+				switch value.(type) {
+				case *slip.ReturnResult, *GoTo:
+					return value
+				}
+				ns.Let(sym, value)
 			} else {
 				ns.Let(sym, nil)
 			}
@@ -144,6 +152,7 @@ func processBinding(s, ns *slip.Scope, arg slip.Object, depth int) {
 			slip.TypePanic(s, depth, "binding", tb, "list", "symbol")
 		}
 	}
+	return nil
 }
 
 // callN is used by second, third, fourth, etc.
